@@ -1154,3 +1154,21 @@ def run(ctx) -> None:  # noqa: F811
              "DiffractionPatterns.integrate_radial is displaced by a pixel for one parity of the pattern size and no "
              "longer agrees with the detectors that integrate un-shifted patterns or use the other builder")
     deferred.run(ctx, lambda: _maskorigin(ctx, ctx.repo), _inner_run_c12e)
+
+
+# ---- added after the seeded change C13-r6seed3: the radial window of PolarMeasurements.integrate, evaluated exactly
+_inner_run_c12f = run
+
+
+def run(ctx) -> None:  # noqa: F811
+    from ..report import OnlyConstructs
+    from ..rules import deferred
+    from . import c13
+
+    ctx.rule("R-WINDOWEXACT", "(the rule of C13, restricted to the radial axis) " + c13.WINDOWEXACT_TEXT + ".  For the "
+             "detector-agreement property: FlexibleAnnularDetector followed by integrate_radial(inner, outer) with the "
+             "detector's own limits puts the upper limit on the outer edge of the last radial bin (index n); a radial "
+             "index reduced modulo n, or pieces that do not tile [l, r), give a sum that differs from the "
+             "AnnularDetector with the same limits")
+    only = OnlyConstructs(ctx, ("abtem.measurements.PolarMeasurements.integrate:radial-axis window",))
+    deferred.run(ctx, lambda: c13.windowexact(only), _inner_run_c12f)
